@@ -200,8 +200,10 @@ class Interp:
         keep_ext=(),
         stubs=None,
         erase_masks=True,
+        log_divisions=False,
     ):
         self.P = program
+        self.log_divisions = log_divisions  # record the denominator of every division (rules about vanishing denominators)
         self.opaque = set(opaque)  # internal qualnames that are not inlined
         self.opaque_methods = set(opaque_methods)
         self.policy = policy  # callable(BoolV, node, interp) -> True/False/None
@@ -310,7 +312,7 @@ class Interp:
         for p in fi.params + fi.kwonly:
             if skip_self and p in ("self", "cls") and fi.cls is not None and p == (fi.params[:1] or [None])[0]:
                 continue
-            if known is not None and p not in known and p in defaults:
+            if known is not None and p not in known and p in defaults and getattr(self, "pin_defaults", True):
                 out[p] = self.eval(defaults[p], Env(None, fi.module, None))
             else:
                 out[p] = sym_num(p)
@@ -948,6 +950,8 @@ class Interp:
         return self._binop(n.op, self.eval(n.left, env), self.eval(n.right, env), n)
 
     def _binop(self, op, a, b, node):
+        if isinstance(op, ast.Div) and isinstance(b, (Num, Vec)) and getattr(self, "log_divisions", False):
+            self.log("div", node, den=b)
         if isinstance(op, ast.MatMult):
             return self._matmul(a, b)
         if isinstance(op, ast.BitAnd) and (isinstance(a, BoolV) or isinstance(b, BoolV)):
@@ -1330,6 +1334,12 @@ class Interp:
             return BoundExt(base, attr)
         if isinstance(base, TupV) and attr in base.names:
             return base.items[base.names.index(attr)]
+        if isinstance(base, TupV) and attr == "T" and base.arr:
+            # transpose of an array given by its rows: explicit rows -> explicit columns; the generic row of a comprehension
+            # (one tuple standing for every row) read column-wise is the tuple of its element-wise columns: itself
+            if base.items and all(isinstance(r, TupV) and len(r.items) == len(base.items[0].items) for r in base.items) and not base.rowview:
+                return TupV([TupV([r.items[k] for r in base.items], True, arr=True) for k in range(len(base.items[0].items))], True, arr=True)
+            return base
         if isinstance(base, (TupV, DictV, SetV, Buf, StrV, Arr2)):
             if isinstance(base, Arr2) and attr == "shape":
                 return TupV([Num(x) for x in base.shape])
@@ -1861,7 +1871,7 @@ class Interp:
         return res
 
     def _call_method(self, recv, meth, args, kwargs, node):
-        if isinstance(recv, ExtObj) and recv.qual.startswith("scipy.sparse.") and meth in ("tocsr", "tocsc", "tocoo", "todia", "asformat", "copy", "tolil"):
+        if isinstance(recv, ExtObj) and recv.qual.startswith("scipy.sparse.") and meth in ("tocsr", "tocsc", "tocoo", "todia", "asformat", "copy", "tolil", "toarray", "todense"):
             return recv  # the same matrix in another storage format
         if meth == "cumsum" and "axis" in kwargs and isinstance(kwargs["axis"], NoneV):
             kwargs = {k: v for k, v in kwargs.items() if k != "axis"}  # axis=None is the default
@@ -2100,6 +2110,8 @@ def _h_identity(it, args, kwargs, bound, node, qual):
     if len(args) >= 1:
         if qual in ("numpy.array", "numpy.copy", "copy.copy", "copy.deepcopy") and isinstance(args[0], Vec):
             return args[0].copy()  # a new array: later in-place writes do not reach the original
+        if qual in ("numpy.array", "numpy.asarray", "numpy.asanyarray") and isinstance(args[0], TupV) and not args[0].arr:
+            return TupV(list(args[0].items), args[0].is_list, names=args[0].names, rowview=args[0].rowview, arr=True)
         return args[0]
     return None
 
